@@ -3,7 +3,9 @@
 //! tuples on arrays, newtype structs, recursive types, borrowed &str / &[u8] pointing into the input; an enum with a
 //! symbol called `Null` under Option / Vec / map; optional fields left out by the Serialize impl (skip_serializing_if)
 //! at every position; a union of named types that share their short name; Option<enum> over unions that are not
-//! [null,T] (two non-null branches, one branch, three or more branches with or without null).
+//! [null,T] (two non-null branches, one branch, three or more branches with or without null); enums as unions with
+//! tuple variants over array branches, struct variants over record branches, newtype variants over maps, each followed
+//! by further fields / elements.
 //! Values come from a small deterministic generator (boundary values first). Every value is also serialized through
 //! writers that take at most k bytes per `write` call and into exact-size / too-small slices (same bytes / Err).
 
@@ -409,6 +411,75 @@ fn opts(r: &mut Rng) -> Opts {
 	}
 }
 
+// enums held as unions whose variants take every shape serde offers: a TUPLE variant over an array branch, a STRUCT
+// variant over a record branch, newtype variants over a map / a leaf / a Vec, a unit variant over null -- each followed by
+// further data in the datum (later fields, the next element of a Vec / map), so that a variant that reads one byte too
+// few or too many shifts everything behind it
+#[derive(Serialize, Deserialize, Debug, PartialEq, Clone)]
+enum Geo {
+	Null,
+	Array(i32, i32),
+	Rect { w: i32, h: i32 },
+	Map(BTreeMap<String, i32>),
+	String(String),
+}
+#[derive(Serialize, Deserialize, Debug, PartialEq, Clone)]
+enum Tup3 {
+	Array(String, String, String),
+	Long(i64),
+}
+#[derive(Serialize, Deserialize, Debug, PartialEq, Clone)]
+struct Track {
+	head: i32,
+	g: Geo,
+	tail: String,
+	gs: Vec<Geo>,
+	mid: i64,
+	by: BTreeMap<String, Geo>,
+	t3: Tup3,
+	t3s: Vec<Tup3>,
+	last: Geo,
+	end: String,
+}
+const GEO: &str = r#"["null",{"type":"array","items":"int"},{"type":"record","name":"Rect","fields":[{"name":"w","type":"int"},{"name":"h","type":"int"}]},{"type":"map","values":"int"},"string"]"#;
+const TUP3: &str = r#"[{"type":"array","items":"string"},"long"]"#;
+fn track_schema() -> String {
+	let geo_ref = r#"["null",{"type":"array","items":"int"},"Rect",{"type":"map","values":"int"},"string"]"#;
+	format!(
+		r#"{{"type":"record","name":"Track","fields":[{{"name":"head","type":"int"}},{{"name":"g","type":{GEO}}},{{"name":"tail","type":"string"}},{{"name":"gs","type":{{"type":"array","items":{geo_ref}}}}},{{"name":"mid","type":"long"}},{{"name":"by","type":{{"type":"map","values":{geo_ref}}}}},{{"name":"t3","type":{TUP3}}},{{"name":"t3s","type":{{"type":"array","items":{TUP3}}}}},{{"name":"last","type":{geo_ref}}},{{"name":"end","type":"string"}}]}}"#
+	)
+}
+fn geo(r: &mut Rng) -> Geo {
+	match r.below(7) {
+		0 => Geo::Null,
+		1 | 2 | 3 => Geo::Array(r.i32(), r.i32()),
+		4 => Geo::Rect { w: r.i32(), h: r.i32() },
+		5 => Geo::Map((0..r.below(3)).map(|_| (r.string(), r.i32())).collect()),
+		_ => Geo::String(r.string()),
+	}
+}
+fn tup3(r: &mut Rng) -> Tup3 {
+	if r.below(3) == 0 {
+		Tup3::Long(r.i64())
+	} else {
+		Tup3::Array(r.string(), r.string(), r.string())
+	}
+}
+fn track(r: &mut Rng) -> Track {
+	Track {
+		head: r.i32(),
+		g: geo(r),
+		tail: r.string(),
+		gs: (0..r.below(5)).map(|_| geo(r)).collect(),
+		mid: r.i64(),
+		by: (0..r.below(4)).map(|_| (r.string(), geo(r))).collect(),
+		t3: tup3(r),
+		t3s: (0..r.below(4)).map(|_| tup3(r)).collect(),
+		last: geo(r),
+		end: r.string(),
+	}
+}
+
 fn within(outer: &[u8], p: *const u8, len: usize) -> bool {
 	let (a, b) = (outer.as_ptr() as usize, outer.as_ptr() as usize + outer.len());
 	let q = p as usize;
@@ -491,11 +562,18 @@ pub fn run(seed: u64, n: usize) -> Result<usize, String> {
 	let sl_s: serde_avro_fast::Schema = STR_OR_LONG.parse().map_err(|e| format!("schema [string,long]: {e}"))?;
 	let ls_s: serde_avro_fast::Schema = LONG_OR_STR.parse().map_err(|e| format!("schema [long,string]: {e}"))?;
 	let opts_s: serde_avro_fast::Schema = OPTS.parse().map_err(|e| format!("schema Opts: {e}"))?;
+	let geo_s: serde_avro_fast::Schema = GEO.parse().map_err(|e| format!("schema Geo: {e}"))?;
+	let geos_s: serde_avro_fast::Schema = format!(r#"{{"type":"array","items":{GEO}}}"#).parse().map_err(|e| format!("schema Vec<Geo>: {e}"))?;
+	let track_s: serde_avro_fast::Schema = track_schema().parse().map_err(|e| format!("schema Track: {e}"))?;
 	let mut count = 0;
 	for _ in 0..n {
 		rt_owned(&sl_s, &Some(str_or_long(&mut r)), "Option<StrOrLong> on [string,long]")?;
 		rt_owned(&ls_s, &Some(str_or_long(&mut r)), "Option<StrOrLong> on [long,string]")?;
 		rt_owned(&opts_s, &opts(&mut r), "Opts")?;
+		count += 3;
+		rt_owned(&geo_s, &geo(&mut r), "Geo (enum as union: tuple / struct / newtype / unit variants)")?;
+		rt_owned(&geos_s, &(0..r.below(5)).map(|_| geo(&mut r)).collect::<Vec<_>>(), "Vec<Geo>")?;
+		rt_owned(&track_s, &track(&mut r), "Track (variants of every shape followed by further fields / elements)")?;
 		count += 3;
 		rt_owned(&tri_opt_s, &opt_tri(&mut r), "Option<Tri>")?;
 		rt_owned(&poll_s, &poll(&mut r), "Poll")?;
